@@ -340,10 +340,11 @@ func (r *Runner) doRecv(bctx sdk.Context, ln *Line) {
 	// control runs first, each on a throw-away branch of the same pre-state (DESIGN.md §5.5)
 	if r.controls["nopause"] {
 		c, _ := bctx.CacheContext()
-		r.clearPauses(c)
-		res, evs := r.recvOn(c, r.mod, p)
-		rq, xf, _ := r.observe(evs)
-		ln.Obs.Ctl["nopause"] = CtlOut{Run: true, Ack: res.Ack, Req: rq, Xfers: xf}
+		if r.clearPauses(c) {
+			res, evs := r.recvOn(c, r.mod, p)
+			rq, xf, _ := r.observe(evs)
+			ln.Obs.Ctl["nopause"] = CtlOut{Run: true, Ack: res.Ack, Req: rq, Xfers: xf}
+		}
 	}
 	if r.controls["clean"] {
 		c, _ := bctx.CacheContext()
@@ -406,23 +407,47 @@ func (r *Runner) doRecv(bctx sdk.Context, ln *Line) {
 			ln.Obs.X = map[string]any{}
 		}
 		memo, _ := conc["memo"].(string)
-		ln.Obs.X["parse"] = w.parseTwice(memo)
+		po := w.parseTwice(memo)
+		// history-independence: the app's long-lived adapter must accept the memo iff a fresh parser
+		// does (only meaningful when the packet is addressed to the orbiter with a valid coin; for
+		// other packets the adapter refuses for other reasons and no claim is made)
+		po.Hist = true
+		if in.Rcv == "ORB" && in.Dn == "RET" && (in.AmtC == "OK" || in.AmtC == "PLUS") && in.Amt > 0 {
+			aok, _, _ := w.appAdapterAccepts(p)
+			po.Hist = aok == po.Ok
+		}
+		ln.Obs.X["parse"] = po
 		ln.Obs.X["rt"] = w.roundTrip(in, memo)
 	}
 }
 
-func (r *Runner) clearPauses(ctx sdk.Context) {
+// clearPauses empties the pause sets on the (control) branch through the keeper's own setters.
+// It reports false when a setter refuses (the control run is then not comparable and is skipped).
+func (r *Runner) clearPauses(ctx sdk.Context) (ok bool) {
+	defer func() {
+		if rec := recover(); rec != nil {
+			ok = false
+		}
+	}()
 	k := r.w.app.OrbiterKeeper
 	g := k.ExportGenesis(ctx)
+	ok = true
 	for _, p := range g.ForwarderGenesis.PausedProtocolIds {
-		must(k.Forwarder().SetUnpausedProtocol(ctx, p))
+		if k.Forwarder().SetUnpausedProtocol(ctx, p) != nil {
+			ok = false
+		}
 	}
 	for _, c := range g.ForwarderGenesis.PausedCrossChainIds {
-		must(k.Forwarder().SetUnpausedCrossChain(ctx, *c))
+		if k.Forwarder().SetUnpausedCrossChain(ctx, *c) != nil {
+			ok = false
+		}
 	}
 	for _, a := range g.ExecutorGenesis.PausedActionIds {
-		must(k.Executor().SetUnpausedAction(ctx, a))
+		if k.Executor().SetUnpausedAction(ctx, a) != nil {
+			ok = false
+		}
 	}
+	return ok
 }
 
 // emptyOrbiter moves every coin off the orbiter account on the (control) branch.
